@@ -1,4 +1,5 @@
 #include "exec.hpp"
+#include "bigcase.hpp"
 #include <algorithm>
 #include <cmath>
 #include <cstring>
@@ -402,6 +403,7 @@ struct Exec {
         case OP_DETACH: rc = lib([&] { return ncmpi_buffer_detach(me.ncid[op.file]); }); rc_check(op, opi, rc, exp_rc(op), op.rc_any); break;
         case OP_INQ: do_inq(op, opi); break;
         case OP_OPENPROBE: do_openprobe(op, opi); break;
+        case OP_BIGCASE: { c.res->rcs[r][opi].executed = true; run_bigcase(op, r, c.n, [&](const char *k, const std::string &d) { sim::set_in_lib(false); fail(k, opi, d); }); break; }
         case OP_PROBE: {
             int ncid = me.ncid[op.file]; int dummy = 0, v = 0, req = NC_REQ_NULL, stt = 0; MPI_Offset st[16] = {0}, ct[16]; for (auto &x : ct) x = 1; double val = 0;
             rc = lib([&] {
